@@ -219,8 +219,8 @@ func c02CoqForestX(nodes []*html.Node, canon bool) (string, bool) {
 					xs = append(xs, "Text "+coqBytes(t))
 				}
 			case html.ElementNode:
-				if n.Data == "script" || n.Data == "style" || n.Data == "pre" || n.Data == "textarea" {
-					ok = false // raw-text and whitespace-preserving elements are outside the model's serialiser
+				if n.Data == "script" || n.Data == "style" {
+					ok = false // raw-text elements are outside the model's serialiser (pre and textarea are inside: verbatim content)
 				}
 				var as []string
 				for _, a := range n.Attr {
